@@ -409,7 +409,15 @@ def load_known_findings(pid):
     if not os.path.exists(path):
         return []
     data = json.load(open(path))
-    return [f for f in data.get("findings", []) if f.get("property") == pid and f.get("status", "open") == "open"]
+    found = [f for f in data.get("findings", []) if f.get("property") == pid and f.get("status", "open") == "open"]
+    # per-property proposals (merged into known_findings.json when a check is integrated)
+    extra = os.path.join(VERIF, "harness", "props", "%s_findings.json" % pid.lower())
+    if os.path.exists(extra):
+        have = {f["id"] for f in found}
+        for f in json.load(open(extra)).get("findings", []):
+            if f.get("property") == pid and f.get("status", "open") == "open" and f["id"] not in have:
+                found.append(f)
+    return found
 
 
 def write_replay(pid, kind, payload):
